@@ -22,7 +22,7 @@ def PC.sl? : PC → Option SL
 def PC.wwA : PC → Bool
   | .lsSt c | .lsRelLd c | .lsRelCas c _ | .lsWaitLd c | .lsPEnter c | .lsPRet c => c.l == .W
   | .lsLd c | .lsCasAcq c _ | .lsCasEnq c _ => c.l == .W && c.clear
-  | .mtLd _ | .mtCasAcq _ _ | .mtCasWW _ _ => true
+  | .mtLd _ | .mtCasAcq _ _ | .mtCasWW _ _ | .mtLdWk _ _ => true
   | _ => false
 
 /-- The record of a thread waiting inside lock_slow (it has no condition). -/
@@ -30,10 +30,10 @@ def PC.lsRec : PC → Option Wid
   | .lsRelLd c | .lsRelCas c _ | .lsWaitLd c | .lsPEnter c | .lsPRet c => c.w
   | _ => none
 
-/-- `old_word` of mu_try_acquire_after_timeout_or_cancel passed the test of mu_wait.c:72, which includes
-    MU_LONG_WAIT (MU_WZERO_TO_ACQUIRE). -/
+/-- (Before the repair of F9 `old_word` of mu_try_acquire_after_timeout_or_cancel had passed a test that included
+    MU_LONG_WAIT, and this said `old.lw = false`.  A woken thread now acquires with MU_LONG_WAIT set in `old_word`;
+    what makes its release store harmless is `Inv12.mtlw`: the bit is then still set in the word.) -/
 def PC.ok12 : PC → Prop
-  | .mtCasAcq _ old | .mtLdW _ old | .mtLdRc _ old | .mtRmLd _ old | .mtRmCas _ old _ | .mtStW _ old | .mtStRel _ old _ => old.lw = false
   | _ => True
 
 /-- A write-mode waiter whose record has been taken off the queue (by an unlocker) and that has not yet
@@ -61,6 +61,7 @@ structure Inv12 (s : State) : Prop where
   wws : s.word.ww = true → ClientW s → (∃ t, WJ s t) ∨ WB0 s
   lw : s.word.lw = true → ∃ t c, (s.pc t).sl? = some c ∧ c.lwl = true
   mtw : ∀ t old, (s.pc t).mtOld = some old → s.word.ww = false
+  mtlw : ∀ t old, (s.pc t).mtOld = some old → old.lw = true → s.word.lw = true
   ok : ∀ t, (s.pc t).ok12
   rcn : ∀ t k, (s.pc t).lsRec = some k → (s.wr k).cond = none
   nm : s.nwViol = false → NeedN s → ∃ t, RespT s t
@@ -116,6 +117,12 @@ structure WordTL (s s' : State) (t : Tid) : Prop where
   p10 : ∀ v, s'.wOwner = some v → (v = t → (s'.pc t).unl = false) → s'.word.ww = true →
     s.wOwner = some v ∧ (v = t → (s.pc t).unl = false)
 
+/-- MU_LONG_WAIT against the `old_word` of mu_try_acquire_after_timeout_or_cancel (repair of F9): the bit is cleared only by
+    an acquisition (the writer bit is clear) or by the release store of that function. -/
+structure LwTL (s s' : State) (t : Tid) : Prop where
+  p12 : ∀ old, (s'.pc t).mtOld = some old → old.lw = true → ((s.pc t).mtOld = some old → s.word.lw = true) → s'.word.lw = true
+  p13 : s.word.lw = true → s'.word.lw = true ∨ s.word.wlock = false ∨ (s.pc t).mtOld ≠ none
+
 /-- Everything the induction step of `Inv12` needs to know about a step of thread `t` that is not a
     client data access. -/
 structure StepTL (s s' : State) (t : Tid) : Prop where
@@ -126,5 +133,6 @@ structure StepTL (s s' : State) (t : Tid) : Prop where
   wt : WaitTL s s' t
   wd : WordTL s s' t
   rk : RKeep s s' t
+  lw : LwTL s s' t
 
 end NsyncVerif.MuC
